@@ -1,0 +1,16 @@
+//go:build !verif
+
+package kafka
+
+// No-op twins of the consumer-group hook helpers of verif_export_group.go.  They are only referenced from
+// `if verifOn { ... }` blocks, which are dead code without the `verif` build tag.
+
+func verifGroupConnect(config *ConsumerGroupConfig) {}
+
+func verifGroupErr(err error) string { return "" }
+
+func verifGroupCommits(cs []commit) string { return "" }
+
+func verifGroupAssignments(a map[string][]PartitionAssignment) string { return "" }
+
+func verifGroupOffsets(m map[topicPartition]int64) string { return "" }
